@@ -2,6 +2,7 @@
   Props/C17.lean — unrolling a two-slice template is slice-wise renaming.
 -/
 import PgmVerif.Proofs.Factor
+import PgmVerif.Props.C01
 import PgmVerif.Model.DBN
 import Mathlib.Data.List.Nodup
 namespace PgmVerif
@@ -36,6 +37,34 @@ theorem C17_unroll_wf (K : Var → Nat) (d : Nat) (f : Factor) (hf : f.WF (fun v
     simp only [List.map_map]
     rw [h2]
     rfl
+
+/-- ids of the variables of slices 0..T in slice order, without the kept (query / evidence) ones -/
+def sliceOrder (k T : Nat) (keep : List Var) : List Var :=
+  (List.range ((T + 1) * k)).filter (fun i => !keep.contains i)
+
+theorem sliceOrder_nodup (k T : Nat) (keep : List Var) : (sliceOrder k T keep).Nodup :=
+  List.Nodup.filter _ List.nodup_range
+
+/-- **slice-wise elimination of the unrolled network is exact**: for a well-formed template, any evidence and
+    any set of kept variables, variable elimination in slice order (slice 0 first, then slice 1, …) leaves the
+    evidence-reduced product of ALL unrolled CPDs summed over exactly the eliminated variables — for every
+    number of slices T.  (Instance of `C01_ve_any_order`; the forward pass of `DBNInference` computes the same
+    sums through its start / 1.5-slice junction trees.) -/
+theorem C17_slicewise_elimination_exact (K : Var → Nat) (tm : DBNTemplate) (T : Nat) (ev : List (Var × Nat))
+    (keep : List Var) (hwf : AllWF K (tm.unroll T)) (hkeep : ∀ p ∈ ev, p.1 ∈ keep)
+    (hment : ∀ v ∈ sliceOrder tm.k T keep, Mentioned (tm.unroll T) v) (a : Asg) (ha : Bounded K a) :
+    (productAll (veRun ((tm.unroll T).map (fun f => f.reduce ev)) (sliceOrder tm.k T keep))).den a
+      = sumOut K (sliceOrder tm.k T keep)
+          (fun b => jointDen (tm.unroll T) (overrideL b (ev.map (·.1)) (ev.map (·.2)))) a := by
+  apply C01_ve_any_order K (tm.unroll T) ev (sliceOrder tm.k T keep) hwf (sliceOrder_nodup tm.k T keep) _ a ha
+  intro v hv
+  refine ⟨?_, hment v hv⟩
+  intro hmem
+  obtain ⟨p, hp, rfl⟩ := List.mem_map.mp hmem
+  have := (List.mem_filter.mp hv).2
+  simp only [Bool.not_eq_true', List.contains_eq_mem, decide_eq_false_iff_not] at this
+  exact this (hkeep p hp)
+
 
 /-- non-vacuity: a template CPD that is well-formed for the shifted cardinalities -/
 example : (Factor.mk [1, 0] [2, 2] #[9/10, 1/10, 1/10, 9/10]).WF (fun v => (fun _ => 2) (v + 1)) :=
